@@ -149,7 +149,7 @@ class Analysis:
       # non-polynomial operand: result is non-polynomial unless multiplied by an exact structural zero (ignored)
       return NONPOLY, first_why
     mx = max(degs) if degs else 0
-    if name in ('add', 'sub', 'add_any', 'concatenate', 'pad', 'neg', 'reduce_sum', 'cumsum', 'cumlogsumexp_not',
+    if name in ('add', 'sub', 'add_any', 'concatenate', 'stack', 'split', 'pad', 'neg', 'reduce_sum', 'cumsum', 'cumlogsumexp_not',
                 'dynamic_update_slice', 'select_and_scatter_add', 'psum', 'all_gather', 'ppermute', 'all_to_all',
                 'psum_scatter', 'reduce_scatter', 'pbroadcast', 'axis_index', 'iota', 'conj', 'real', 'imag') \
         or name in STRUCTURAL:
@@ -217,9 +217,12 @@ class Analysis:
         r = lax.dot_general(jnp.asarray(a), jnp.asarray(b), dimension_numbers=dn)
         return np.asarray(r) > 0
       if name in ('reshape', 'transpose', 'squeeze', 'broadcast_in_dim', 'slice', 'rev', 'expand_dims', 'reduce_max',
-                  'dynamic_slice', 'gather', 'concatenate', 'dynamic_update_slice', 'select_n', 'cumsum', 'reduce_sum',
+                  'dynamic_slice', 'gather', 'concatenate', 'stack', 'dynamic_update_slice', 'select_n', 'cumsum', 'reduce_sum',
                   'pad', 'scatter', 'scatter-add', 'scatter_add', 'cummax'):
         return self._nz_structural(name, eqn, ins, shape)
+      if name == 'split':
+        r = eqn.primitive.bind(jnp.asarray(ins[0].nz.astype(np.float32)), **eqn.params)
+        return [np.asarray(x) > 0 for x in r]
       if name in COMPARE:
         return T()
     except Exception as e:  # pylint: disable=broad-except
@@ -267,8 +270,8 @@ class Analysis:
     if name == 'pad':
       r = lax.pad_p.bind(f32(ins[0]), f32(ins[1]), **eqn.params)
       return np.asarray(r) > 0
-    if name == 'concatenate':
-      r = lax.concatenate_p.bind(*[f32(a) for a in ins], **eqn.params)
+    if name in ('concatenate', 'stack'):
+      r = eqn.primitive.bind(*[jnp.broadcast_to(f32(a), v.aval.shape) for a, v in zip(ins, eqn.invars)], **eqn.params)
       return np.asarray(r) > 0
     r = eqn.primitive.bind(f32(ins[0]), **eqn.params)
     return np.asarray(r) > 0
